@@ -98,6 +98,25 @@ def run_case(case, obs) -> None:  # noqa: C901, PLR0915
                 viol("h1_flow:momentum", f"h1_flow(t={t:.4g}) momentum differs from p - t grad h1 by {e:.3e}")
             if not np.array_equal(st.pos, pos_before):
                 viol("h1_flow:position-changed", f"h1_flow(t={t:.4g}) changed the position")
+            # repeated kicks on the same state object compose additively and the negative time undoes them (the
+            # integrators apply adjacent half kicks at one position)
+            ts = [t, float(rng.uniform(-1, 1) * t), float(rng.uniform(-1, 1) * t)]
+            total = t
+            for k, tk in enumerate(ts[1:], start=2):
+                s.h1_flow(st, tk)
+                total += tk
+                obs.count("flow_calls_checked")
+                obs.count("h1_repeated_kicks")
+                e = rel(st.mom, p - total * g)
+                if e > 2e-6 * (1 + sum(abs(x) for x in ts)):
+                    viol("h1_flow:not-additive", f"kick #{k} on one state: after h1_flow times {ts[:k]} the momentum differs from "
+                                                 f"p - (sum t) grad h1 by {e:.3e}")
+                    break
+            else:
+                s.h1_flow(st, -total)
+                e = rel(st.mom, p)
+                if e > 2e-6 * (1 + sum(abs(x) for x in ts)):
+                    viol("h1_flow:not-undone", f"h1_flow times {ts} followed by minus their sum does not restore the momentum: {e:.3e}")
             # ---------------- h2 flow
             st = m.state(q, p)
             h2_before = m.ref_h2(q, p)
